@@ -5,8 +5,8 @@ from ..model import load_model
 from ..harness import partition, valuations
 from ..callgraph import CallGraph
 from .. import spec
-from ..evalengine import (depth1_instances, depth2_instances, constant_child_instances, eval_case, pmap,
-                          param_class, region_class)
+from ..evalengine import (depth1_instances, depth2_instances, constant_child_instances, inspected_child_instances,
+                          wide_nary_instances, eval_case, pmap, param_class, region_class)
 from ..derivcommon import derivative_cases
 from ..derivengine import deriv_group, ROUTES, EXPR_ROUTES
 
@@ -121,6 +121,11 @@ def check(rep):
         names = spec.variables(tree)
         use = atoms if len(names) <= 1 else coarse
         for val in valuations(names, use):
+            cases.append((tree, label, val))
+    from ..simpengine import SIGN_REGIONS
+    for tree, label in inspected_child_instances(model, tier) + wide_nary_instances(model, tier):
+        names = spec.variables(tree)
+        for val in valuations(names, coarse if len(names) <= 1 else SIGN_REGIONS):
             cases.append((tree, label, val))
     results = pmap(eval_case, [(t, v, "at") for (t, l, v) in cases])
     per = {}
